@@ -35,6 +35,8 @@ pub enum Op {
     RenameName(String, Option<u32>, String),
     /// move the name (name, scope) to the new scope, same name and formula
     Rescope(String, Option<u32>, Option<u32>),
+    /// one edit that renames the name AND moves it to another scope (same formula)
+    RenameRescope(String, Option<u32>, String, Option<u32>),
     BytesRoundTrip,
     XlsxRoundTrip,
     InsertRows(u32, i32, i32),
@@ -53,6 +55,7 @@ impl Op {
             Op::NewSheet => "new-sheet",
             Op::RenameName(..) => "rename-name",
             Op::Rescope(..) => "rescope-name",
+            Op::RenameRescope(..) => "rename-and-rescope-name",
             Op::BytesRoundTrip => "bytes-round-trip",
             Op::XlsxRoundTrip => "xlsx-round-trip",
             Op::InsertRows(..) => "insert-rows",
@@ -102,6 +105,8 @@ pub fn alphabet() -> Vec<Op> {
         Op::RenameName(s("gcell"), Some(1), s("lcell")),
         Op::Rescope(s("grange"), None, Some(0)),
         Op::Rescope(s("gcell"), Some(1), Some(2)),
+        Op::RenameRescope(s("grange"), None, s("rangetwo"), Some(0)),
+        Op::RenameRescope(s("gcell"), Some(1), s("lcell2"), None),
         Op::BytesRoundTrip,
         Op::XlsxRoundTrip,
         Op::InsertRows(0, 2, 1),
@@ -169,6 +174,10 @@ fn apply(um: UserModel<'static>, op: &Op) -> Result<UserModel<'static>, (String,
         },
         Op::Rescope(n, sc, sc2) => match name_formula(&um, n, *sc) {
             Ok(f) => um.update_defined_name(n, *sc, n, *sc2, &f),
+            Err(e) => Err(e),
+        },
+        Op::RenameRescope(n, sc, n2, sc2) => match name_formula(&um, n, *sc) {
+            Ok(f) => um.update_defined_name(n, *sc, n2, *sc2, &f),
             Err(e) => Err(e),
         },
         Op::InsertRows(s, r, n) => um.insert_rows(*s, *r, *n),
@@ -432,6 +441,10 @@ pub fn judge(word: &[Op]) -> CaseOut {
             Op::Rescope(name, sc, sc2) if n.name.eq_ignore_ascii_case(name) && n.scope == sc.map(|x| x as usize) => {
                 exp_scope = sc2.map(|x| x as usize);
             }
+            Op::RenameRescope(name, sc, n2, sc2) if n.name.eq_ignore_ascii_case(name) && n.scope == sc.map(|x| x as usize) => {
+                exp_name = n2.clone();
+                exp_scope = sc2.map(|x| x as usize);
+            }
             _ => {}
         }
         let expected: Option<String> = match op {
@@ -503,7 +516,7 @@ pub fn judge(word: &[Op]) -> CaseOut {
         let reads = |id: &str| text.to_lowercase().contains(&id.to_lowercase());
         let value_specified = match op {
             // re-scoping changes what a name means where; renaming a name onto/away from a shadowing one too
-            Op::Rescope(..) => false,
+            Op::Rescope(..) | Op::RenameRescope(..) => false,
             Op::RenameName(_, _, _) => true,
             // deleting a sheet breaks the names over it and their readers
             Op::DeleteSheet(i) => !before.names.iter().any(|n| reads(&n.name) && references(&n.stored, &before.sheets[*i as usize])),
@@ -535,7 +548,12 @@ pub fn judge(word: &[Op]) -> CaseOut {
                 ));
             }
         }
-        if let Op::RenameName(name, sc, n2) = op {
+        let renamed = match op {
+            Op::RenameName(name, sc, n2) => Some((name, sc, n2)),
+            Op::RenameRescope(name, sc, n2, _) => Some((name, sc, n2)),
+            _ => None,
+        };
+        if let Some((name, sc, n2)) = renamed {
             let bound = binds(*p, name) == Some(sc.map(|x| x as usize));
             let exp = if bound && reads(name) { replace_ident(text, name, n2) } else { text.clone() };
             out.compared += 1;
